@@ -18,12 +18,15 @@ import (
 	"verifharness/hx"
 )
 
-const Rule = "cases = one graph (kind, vertex count, edge list in insertion order incl. self-loops, parallel edges, " +
-	"out-of-range endpoints, zero/negative weights) + queries (paths/path for dfs, dfsi, bfs and every source, orders, " +
-	"cc, scc, cycle, topo, mst, spt/sptto) drawn from VERIF_SEED; shapes: random multigraphs with 0-9 vertices, " +
-	"disconnected and dense ones, DAGs, functional graphs, long paths/cycles/stars/binary trees with 1030-2120 vertices " +
-	"(stack and queue blocks of 1024 crossed); non-trivial = the graph has an edge between two distinct valid vertices and " +
-	"at least one algorithm query was answered; distinct = distinct (header, op list)"
+const Rule = "cases = histories on graph objects kept alive for the whole case: `graph kind n`, then `edge` (AddEdge) lines interleaved " +
+	"with queries in several rounds (paths/path for dfs, dfsi, bfs and every source, orders, cc, scc, cycle, topo, mst, spt/sptto, " +
+	"dump = V/E/Adj/InDegree, reverse, indeg/outdeg/degree/adjof/edges), `mkrev` keeps Reverse() as a further object and `use i` " +
+	"switches between the objects, all drawn from VERIF_SEED; edge lists incl. self-loops, parallel edges, out-of-range endpoints, " +
+	"zero/negative weights; weighted cases carry wexp=k (the library sees weight*2^k, k from -1070 to +900, exact in float64) or " +
+	"mixed magnitudes (weights m*2^d, d up to 40); shapes: random multigraphs with 0-9 vertices, disconnected and dense ones, DAGs, " +
+	"functional graphs, near-tie routes, long paths/cycles/stars/binary trees with 1030-2120 vertices (stack and queue blocks of " +
+	"1024 crossed); non-trivial = some object has an edge between two distinct valid vertices and at least one algorithm query was " +
+	"answered; distinct = distinct (header, op list)"
 
 type edge struct {
 	u, v int
@@ -43,9 +46,22 @@ type gobj struct {
 	// float64(w)·2^k (exact), weights and distances read back are divided by 2^k before they are printed
 	wexp int
 
+	// sum of |w| over the valid edges: every sum of distinct edge weights the library can form is an integer of at
+	// most this magnitude, so below 2^53 (asserted at every `edge`) all its float64 additions are exact
+	absSum int64
+	// a query has been answered on this object (an `edge` after that is the interesting kind of history)
+	queried      bool
+	edgesAtQuery int
+
 	// lazily built oracle data
 	succ  [][]int
 	reach [][]bool
+}
+
+// world: the objects a case holds (object 0 from `graph`, further ones from `mkrev`) and the current one
+type world struct {
+	objs []*gobj
+	cur  int
 }
 
 func (g *gobj) directed() bool { return g.kind == "directed" || g.kind == "wdirected" }
@@ -330,11 +346,14 @@ func Exec(c hx.Case) hx.Result {
 		}
 	}
 	tags := map[string]bool{}
-	var g *gobj
+	w := &world{}
 	answered := false
 	wexp, _ := strconv.Atoi(hx.HeaderGet(c.Header, "wexp"))
 	if wexp != 0 {
 		tags["wexp="+strconv.Itoa(wexp)] = true
+	}
+	if hx.HeaderGet(c.Header, "mixed") != "" {
+		tags["mixed-magnitudes"] = true
 	}
 	if hangs >= 2 {
 		return res
@@ -347,7 +366,7 @@ func Exec(c hx.Case) hx.Result {
 		var kind string
 		finished := hx.WithTimeout(opTimeout, func() {
 			kind = hx.Try(func() {
-				out = execOp(&g, f, i, bad, tags, &argOutOfRange, &answered, wexp)
+				out = execOp(w, f, i, bad, tags, &argOutOfRange, &answered, wexp)
 			})
 		})
 		if !finished {
@@ -367,33 +386,38 @@ func Exec(c hx.Case) hx.Result {
 		}
 		res.Outs = append(res.Outs, out)
 	}
-	if g != nil {
-		tags["kind="+g.kind] = true
-		distinct := false
-		seen := map[[2]int]bool{}
-		for _, e := range g.edges {
-			if e.u != e.v {
-				distinct = true
-			} else {
-				tags["self-loop"] = true
-			}
-			k := [2]int{e.u, e.v}
-			if !g.directed() && e.u > e.v {
-				k = [2]int{e.v, e.u}
-			}
-			if seen[k] {
-				tags["parallel"] = true
-			}
-			seen[k] = true
-			if g.weighted() && e.w == 0 {
-				tags["zero-weight"] = true
-			}
-			if e.w < 0 {
-				tags["negative-weight"] = true
-			}
+	if len(w.objs) > 0 {
+		tags["kind="+w.objs[0].kind] = true
+		if len(w.objs) > 1 {
+			tags["objects>1"] = true
 		}
-		if g.n > 1024 {
-			tags["n>1024"] = true
+		distinct := false
+		for _, g := range w.objs {
+			seen := map[[2]int]bool{}
+			for _, e := range g.edges {
+				if e.u != e.v {
+					distinct = true
+				} else {
+					tags["self-loop"] = true
+				}
+				k := [2]int{e.u, e.v}
+				if !g.directed() && e.u > e.v {
+					k = [2]int{e.v, e.u}
+				}
+				if seen[k] {
+					tags["parallel"] = true
+				}
+				seen[k] = true
+				if g.weighted() && e.w == 0 {
+					tags["zero-weight"] = true
+				}
+				if e.w < 0 {
+					tags["negative-weight"] = true
+				}
+			}
+			if g.n > 1024 {
+				tags["n>1024"] = true
+			}
 		}
 		res.Nontrivial = distinct && answered
 	}
@@ -403,12 +427,11 @@ func Exec(c hx.Case) hx.Result {
 	return res
 }
 
-func execOp(gp **gobj, f []string, i int, bad func(int, string, ...any), tags map[string]bool, argOOR *bool, answered *bool, wexp int) string {
+func execOp(wl *world, f []string, i int, bad func(int, string, ...any), tags map[string]bool, argOOR *bool, answered *bool, wexp int) string {
 	if len(f) == 0 {
 		return "bad-op"
 	}
-	g := *gp
-	if g == nil {
+	if len(wl.objs) == 0 {
 		if len(f) == 3 && f[0] == "graph" {
 			n, err := strconv.Atoi(f[2])
 			if err != nil || n < 0 {
@@ -427,12 +450,20 @@ func execOp(gp **gobj, f []string, i int, bad func(int, string, ...any), tags ma
 			default:
 				return "bad-op"
 			}
-			*gp = ng
+			wl.objs = append(wl.objs, ng)
 			return "ok"
 		}
 		return "bad-op"
 	}
+	g := wl.objs[wl.cur]
 	n := g.n
+	if f[0] != "edge" && f[0] != "use" && f[0] != "mkrev" {
+		if len(g.edges) > g.edgesAtQuery && g.queried {
+			tags["query-after-edge-after-query"] = true
+		}
+		g.queried = true
+		g.edgesAtQuery = len(g.edges)
+	}
 	atoi := func(s string) (int, bool) { v, err := strconv.Atoi(s); return v, err == nil }
 	valid := func(v int) bool { return v >= 0 && v < n }
 	us := func(x float64) float64 { return math.Ldexp(x, -g.wexp) } // undo the weight scale
@@ -451,15 +482,28 @@ func execOp(gp **gobj, f []string, i int, bad func(int, string, ...any), tags ma
 		if !ok1 || !ok2 || !ok3 {
 			return "bad-op"
 		}
+		scaled := math.Ldexp(float64(w), g.wexp)
+		if g.weighted() && valid(u) && valid(v) {
+			// exactness of everything the library will compute with this weight (see gobj.absSum)
+			a := int64(w)
+			if a < 0 {
+				a = -a
+			}
+			g.absSum += a
+			if g.absSum >= 1<<53 || math.IsInf(scaled, 0) || math.Ldexp(scaled, -g.wexp) != float64(w) ||
+				math.IsInf(math.Ldexp(float64(g.absSum), g.wexp), 0) || math.Ldexp(float64(g.absSum), g.wexp) >= math.MaxFloat64/4 {
+				bad(i, "harness: weight %d * 2^%d (sum of magnitudes %d) is outside the range in which float64 arithmetic is exact", w, g.wexp, g.absSum)
+			}
+		}
 		switch g.kind {
 		case "directed":
 			g.d.AddEdge(u, v)
 		case "undirected":
 			g.u.AddEdge(u, v)
 		case "wdirected":
-			g.wd.AddEdge(graph.VerifDirectedEdge(u, v, math.Ldexp(float64(w), g.wexp)))
+			g.wd.AddEdge(graph.VerifDirectedEdge(u, v, scaled))
 		case "wundirected":
-			g.wu.AddEdge(graph.VerifUndirectedEdge(u, v, math.Ldexp(float64(w), g.wexp)))
+			g.wu.AddEdge(graph.VerifUndirectedEdge(u, v, scaled))
 		}
 		if valid(u) && valid(v) {
 			g.edges = append(g.edges, edge{u, v, int64(w)})
@@ -467,10 +511,16 @@ func execOp(gp **gobj, f []string, i int, bad func(int, string, ...any), tags ma
 			if w < 0 {
 				g.neg = true
 			}
+			if g.queried {
+				tags["edge-after-query"] = true
+			}
 		} else {
 			tags["edge-out-of-range"] = true
 		}
 		return "ok"
+
+	case "dump", "reverse", "mkrev", "use", "indeg", "outdeg", "degree", "adjof", "edges", "traverse":
+		return execStateOp(wl, g, f, i, bad, tags)
 
 	case "paths", "path":
 		if (f[0] == "paths" && len(f) != 3) || (f[0] == "path" && len(f) != 4) {
@@ -1027,3 +1077,6 @@ func execOp(gp **gobj, f []string, i int, bad func(int, string, ...any), tags ma
 	}
 	return "bad-op"
 }
+
+// ldexpNeg(x, k) = x / 2^k, exactly
+func ldexpNeg(x float64, k int) float64 { return math.Ldexp(x, -k) }
